@@ -321,13 +321,32 @@ func parseReader(r io.Reader) (*html.Node, error) {
 	}
 
 	// Detect page encoding
+	validUTF8 := utf8.Valid(content)
+	hasNonASCII := false
+	for _, c := range content {
+		if c >= utf8.RuneSelf {
+			hasNonASCII = true
+			break
+		}
+	}
+
 	candidates, err := chardet.NewHtmlDetector().DetectAll(content)
+	switch {
+	case validUTF8 && hasNonASCII:
+		// Bytes above 0x7F that form nothing but valid UTF-8 sequences are UTF-8. The
+		// detector scores a page with only a few of them lower than its single-byte
+		// models ("café" was read as "cafÃ©").
+		candidates, err = []chardet.Result{{Charset: "UTF-8", Confidence: 100}}, nil
+	case err == chardet.NotDetectedError:
+		// The detector has no opinion (a short page): parse the bytes as they are
+		candidates, err = []chardet.Result{{Charset: "UTF-8", Confidence: 1}}, nil
+	}
+
 	if err != nil {
 		return nil, err
 	}
 
 	best := candidates[0]
-	validUTF8 := utf8.Valid(content)
 	for _, candidate := range candidates[1:] {
 		if candidate.Confidence < best.Confidence {
 			continue
